@@ -278,6 +278,7 @@ class _LiveSnap:
     dlen = property(lambda s: s.st.dlen)
     typeof = property(lambda s: s.st.typeof)
     ghost = property(lambda s: s.st.ghost)
+    next_id = property(lambda s: s.st.next_id)
 
 
 class Args:
@@ -309,7 +310,9 @@ class SpecCtx:
         self.table = interp.table
         self.log_start = old_snap.log_len
         self.at_call = False
+        self.proving = False      # the clause being evaluated is a proof goal (not an assumption)
         self.extra = {}
+        self._region = None
 
     # -- names
     def mangled(self, qualattr):
@@ -390,8 +393,30 @@ class SpecCtx:
         return z3.And(self.isinst(v, clsname), Val.r(v) >= ALLOC_BASE)
 
     def created_during_call(self, v):
-        """v is an object allocated after the call started."""
-        return z3.And(Val.is_VRef(v), Val.r(v) >= self.old.snap.next_id)
+        """v is an object allocated after the call started.  At a call site the objects the callee created
+        beyond its result live in a block of references reserved for this call."""
+        if self.at_call:
+            if self._region is None:
+                self._region = self.I.st.reserve_region()
+            lo, hi = self._region
+            return z3.And(Val.is_VRef(v), Val.r(v) >= lo, Val.r(v) < hi)
+        return z3.And(Val.is_VRef(v), Val.r(v) >= self.old.snap.next_id, Val.r(v) < self.I.st.next_id)
+
+    def forall_list(self, listval, fn, heap=None, name="j"):
+        """fn(j, element j) for every index of the list.  As a proof goal over a list built by a comprehension
+        the body is checked at the comprehension's arbitrary index (forall-introduction); otherwise a
+        quantified formula."""
+        h = heap or self.new
+        r = z3.simplify(Val.r(listval))
+        wit = self.I.st.ghost.get("comp_witness", {})
+        if self.proving and h is self.new and z3.is_int_value(r) and r.as_long() in wit:
+            w = wit[r.as_long()]
+            if z3.simplify(h.larr(listval)).eq(z3.simplify(w["arr"])) and z3.simplify(h.llen(listval)).eq(z3.simplify(w["len"])) \
+                    and w["total"]:
+                return fn(w["idx"], h.lget(listval, w["idx"]))
+        SpecCtx._nq = getattr(SpecCtx, "_nq", 0) + 1
+        j = z3.Int("%s!fa%d" % (name, SpecCtx._nq))
+        return z3.ForAll([j], z3.Implies(z3.And(j >= 0, j < h.llen(listval)), fn(j, h.lget(listval, j))))
 
     def elems(self, listval, p):
         """Declare the sort of the elements of a list value (used when the code iterates over it)."""
